@@ -2,7 +2,7 @@
 """dev helper: mechanical single-token mutation survey.  Generates mutants of the non-test library source (comparison / arithmetic /
 boolean operators, small constants), filters those that compile, and runs every claimed QUICK check against each in a scratch worktree
 (checks from VERIF_CHECK_DIR or /verif).  A mutant nobody reports is either equivalent or a blind spot - the list is for reading.
-usage: tools_mutation_survey.py <out.jsonl> [--workers N] [--limit K] [--files a.rs,b.rs] [--seed S] [--delete] [--swap12] [--residue-of earlier.jsonl]"""
+usage: tools_mutation_survey.py <out.jsonl> [--workers N] [--limit K] [--files a.rs,b.rs] [--seed S] [--delete] [--swap12] [--argswap] [--residue-of earlier.jsonl]"""
 import json, os, random, re, shutil, subprocess, sys, tempfile, threading, queue
 V = "/verif"
 CHK = os.environ.get("VERIF_CHECK_DIR", V)
@@ -55,6 +55,15 @@ for p in paths:
                     for m in re.finditer(r"(?<![\w])%s(?![\w])" % re.escape(x_), code):
                         new = code[:m.start()] + y_ + code[m.end():] + l[len(code):]
                         muts.append((p, i, l, new, x_ + "->" + y_))
+            continue
+        if "--argswap" in sys.argv:
+            # the two arguments of a two-argument call (or the two operands of a method call with receiver) written in the other order
+            for m in re.finditer(r"\((&?(?:mut )?[\w\.\[\]]+(?:\(\))?), (&?(?:mut )?[\w\.\[\]]+(?:\(\))?)\)", code):
+                a_, b_ = m.group(1), m.group(2)
+                if a_ == b_ or ":" in code[max(0, m.start() - 40):m.start()].split("(")[-1] and "fn " in code:
+                    continue
+                new = code[:m.start()] + "(" + b_ + ", " + a_ + ")" + code[m.end():] + l[len(code):]
+                muts.append((p, i, l, new, "argswap"))
             continue
         for rx, rep in OPS:
             for m in re.finditer(rx, code):
